@@ -22,9 +22,17 @@ fraction).
                          ±16, explicit ones clipped to ±16), `loc = s_50 − log10 load_median`,
                          `mass = cdf(upper) − cdf(lower)` (as `sf(lower) − sf(upper)` for a window above the load median),
                          `direct = quad(pdf(t) · cdf((sc·t − loc)/s_std))`, `viaComplement = mass − quad(pdf(t) · sf(…))`.
-                         BRANCH RULE: with the default limits and `loc < 0` (pf > 1/2 by symmetry) `viaComplement`;
-                         otherwise `direct` if `direct ≤ mass/2`, else `viaComplement` - the smaller one of the two
-                         complementary probabilities is the one that is integrated, so neither loses its relative accuracy.
+                         BRANCH RULE OF THE MODEL (= that of /repo 2da931b): with the default limits and `loc < 0`
+                         (pf > 1/2 by symmetry) `viaComplement`; otherwise `direct` if `direct ≤ mass/2`, else `viaComplement`
+                         - the smaller one of the two complementary probabilities is the one that is integrated.
+                         THE CODE follows the rule of /repo 9f34536 since: in the second case it returns `direct` also when
+                         `|mass| < 1/2`, i.e. `viaComplement` only if the complement is the smaller one AND at least half of the
+                         load lies in the window (in a narrow window `mass − quad(…)` cancels: −5.4e-24 for 4.1e-47).  The model
+                         was deliberately left as it is: both rules choose between the same two expressions, each equal to the
+                         window integral (`window_sf_identity`, `C15.pf_norm_load_code_eq_window_integral`), so the theorems
+                         carry over to the code's rule (not restated) and the correspondence check compares the values within
+                         its tolerance; the narrow windows themselves are covered by the oracle (corpus
+                         `C15/fixreview-d-narrow-window-{a,b,c}`), where the harness compares with its own window integral.
                          `quad` (the value scipy's adaptive quadrature is contracted to deliver), `Φ`, the survival
                          function `Ψ` and the density `φ` are PARAMETERS: the proofs instantiate `quad` with the interval
                          integral (`C15.pf_norm_load_code_eq_window_integral`, `C15.pf_norm_load_code_near_closed_form`), the
